@@ -336,6 +336,12 @@ func splitCases(rnd *rand.Rand, enc *json.Encoder, nObjects, nRanges int, maxLen
 		if oi == 3 {
 			ln = limit - 1 - rnd.Intn(limit-1) // not split at all
 		}
+		if oi == 4 {
+			ln = 0 // empty object stored whole
+		}
+		if oi == 6 {
+			ln = limit // exactly at the limit: still one object
+		}
 		payload := make([]byte, ln)
 		rnd.Read(payload)
 		cnrID := cidtest.ID()
